@@ -40,18 +40,24 @@ CONSTANTS Deviations,
 (* "XyzCountNotEnforced"   xyz atom lines are read until something else comes, the count is ignored  *)
 (* "XyzEofEndsFrame"       end of input inside an xyz frame yields the frame read so far             *)
 (* "PutBackNoProgress"     an unexpected line is put back instead of rejected (loop consumes nothing)*)
+(* "MissingChargeIsZero"   an atom record that lost its charge column is read as neutral although the    *)
+(*                         text announces charges and the class carries them                            *)
 (* "LastTokenCut"          damage level: cutting the last numeric token of the text leaves a         *)
 (*                         well-formed record with another value (no reader can notice)              *)
 (* "OptionalBlockCut"      damage level: a truncation right before an optional UNITY_xxx block of a    *)
 (*                         molecule without bonds leaves a well-formed text without the attributes   *)
 
-VARIABLES fmt, meta, orig, dmg, ref, lines,     \* the input (meta: free-form description of where it came from)
+VARIABLES fmt, cls, meta, orig, dmg, ref, lines,  \* the input: format, consuming class, description, undamaged lines, damage,
+                                                 \* molecules of the undamaged text, damaged lines
           pos, pb, pc, cnt, tmp, hdr, atoms, gotA, bonds, gotB, ua, skip, out, steps, last
-ivars == <<fmt, meta, orig, dmg, ref, lines>>
+ivars == <<fmt, cls, meta, orig, dmg, ref, lines>>
 rvars == <<pos, pb, pc, cnt, tmp, hdr, atoms, gotA, bonds, gotB, ua, skip, out, steps>>
 vars  == <<ivars, rvars, last>>
 
 Dev(d) == d \in Deviations
+(* the consuming class decides which columns of a record are looked at: Molecule and ConformerEnsemble carry  *)
+(* partial charges (column 9 of a mol2 atom record), Structure never reads that column                        *)
+UsesQ == cls # "Structure"
 Reset       == ~Dev("StaleLists")
 RepeatCheck == Reset /\ ~Dev("RepeatedBlockAccepted")
 CountCheck  == ~Dev("NoCountCheck")
@@ -71,7 +77,10 @@ KnownTags    == {"MOLECULE", "ATOM", "BOND", "UNITY_ATOM_ATTR", "UNITY_BOND_ATTR
 IsTag(l, t)  == l.k = "tag" /\ l.t = t
 HasCounts(l) == l.k = "ints" /\ Len(l.c) >= 1
 IsCount(l)   == l.k = "ints" /\ Len(l.c) = 1 /\ l.c[1] >= 0
-AtomOK(l, needq) == l.k = "atom" /\ l.ok /\ (needq => l.hq)
+AtomOK(l, needq) == l.k = "atom" /\ l.ok /\ ((needq /\ UsesQ /\ ~Dev("MissingChargeIsZero")) => l.hq)
+(* what of a record is content for the consuming class *)
+NormQ(l, uq) == IF l.k = "atom" THEN [l EXCEPT !.hq = (IF uq THEN @ ELSE TRUE), !.nt = 0] ELSE l
+Norm(l) == NormQ(l, UsesQ)
 BondOK(l)    == \/ l.k = "bond" /\ l.ok
                 \/ l.k = "ints" /\ Len(l.c) \in 4..6 /\ l.c[4] \in 1..6      \* "7 3 4 1"
 EndsOf(l)    == IF l.k = "bond" THEN <<l.a1, l.a2>> ELSE <<l.c[2], l.c[3]>>
@@ -124,6 +133,8 @@ Variants(f, l, islast, iscnt) ==
           THEN {[v |-> "na+1", line |-> Ints(<<l.c[1] + 1>>)]}
                \cup (IF l.c[1] > 0 THEN {[v |-> "na-1", line |-> Ints(<<l.c[1] - 1>>)]} ELSE {})
           ELSE {})
+  \* an atom record that lost its trailing optional tokens (token dropped, or the line cut after the atom type)
+  \cup (IF l.k = "atom" /\ f = "mol2" /\ l.hq THEN {[v |-> "noq", line |-> [l EXCEPT !.hq = FALSE, !.nt = 6]]} ELSE {})
   \cup (IF islast /\ l.k = "atom" /\ Dev("LastTokenCut")
           THEN {[v |-> "cutnum", line |-> [l EXCEPT !.id = @ + 100]]} ELSE {})
 NoLine == Blank
@@ -159,8 +170,9 @@ RECURSIVE RenderFrom(_, _, _, _)
 RenderFrom(f, st, shs, m) == IF m > Len(shs) THEN <<>> ELSE RenderMol(f, st, m, shs[m]) \o RenderFrom(f, st, shs, m + 1)
 Render(f, st, shs) == (IF f = "mol2" THEN <<Cmt>> ELSE <<>>) \o RenderFrom(f, st, shs, 1)
 Content(as, bs, u, nm) == <<as, bs, u, nm>>   \* u: number of attribute records attached by UNITY_xxx blocks, nm: name
-MkRef(f, st, shs) == [m \in 1..Len(shs) |->
-                   LET as == MolAtoms(f, m, shs[m])
+MkRef(f, st, shs, c) == [m \in 1..Len(shs) |->
+                   LET raw == MolAtoms(f, m, shs[m])
+                       as == [j \in 1..Len(raw) |-> IF f = "mol2" THEN NormQ(raw[j], c # "Structure") ELSE raw[j]]
                        bs == IF f = "mol2" THEN MolBonds(m, shs[m]) ELSE <<>>
                    IN [na |-> shs[m].na, nc |-> shs[m].na, nb |-> Len(bs), atoms |-> as, bonds |-> bs, dig |-> Content(as, bs, IF f = "mol2" /\ st = "unity" /\ shs[m].na >= 1 THEN 1 ELSE 0, IF f = "mol2" THEN MolName(m) ELSE "")]]
 
@@ -184,7 +196,7 @@ Fail(a) == pc' = "error" /\ Tick(a) /\ UNCHANGED <<pos, pb, cnt, tmp, hdr, atoms
 (* block -> molecule (Structure.yield_from_mol2) *)
 PadRow == [k |-> "atom", id |-> 0, ok |-> TRUE, hq |-> TRUE, nt |-> 9]
 MkMol(h, as, gA, bs, gB, u) ==
-  LET A == IF gA THEN [j \in 1..Len(as) |-> TheLines[as[j]]] ELSE <<>>
+  LET A == IF gA THEN [j \in 1..Len(as) |-> Norm(TheLines[as[j]])] ELSE <<>>
       B == IF gB THEN [j \in 1..Len(bs) |-> TheLines[bs[j]]] ELSE <<>>
       inside == \A i \in 1..Len(B) : EndsOf(B[i])[1] \in 1..h.na /\ EndsOf(B[i])[2] \in 1..h.na
   IN IF CountCheck
